@@ -225,7 +225,15 @@ where
     type Stream = Self;
 
     fn into_parts(self) -> (Vector<VectorDiffContainerStreamElement<S>>, Self::Stream) {
-        (self.buffered_vector.clone(), self)
+        // The next observer must start from what this adapter presents (the values
+        // after `count`, nothing as long as there is no `count`), not from the whole
+        // buffer.
+        let values = match self.count {
+            Some(count) => self.buffered_vector.clone().skeep(count),
+            None => Vector::new(),
+        };
+
+        (values, self)
     }
 }
 
